@@ -35,7 +35,7 @@ theorem mon_congr {x y : Var → Rat} {k : Key} (h : ∀ i ∈ k, x i = y i) : m
     simp only [mon_cons]
     rw [h i List.mem_cons_self, ih (fun j hj => h j (List.mem_cons_of_mem _ hj))]
 
-theorem eval_congr {x y : Var → Rat} {p : Poly} (h : ∀ kv ∈ p, ∀ i ∈ kv.1, x i = y i) :
+theorem eval_congr_keys {x y : Var → Rat} {p : Poly} (h : ∀ kv ∈ p, ∀ i ∈ kv.1, x i = y i) :
     eval x p = eval y p := by
   induction p with
   | nil => rfl
